@@ -180,7 +180,7 @@ func runC15(c *Ctx) (int, error) {
 	}
 	cov := Coverage{"states": gr.Distinct + st, "transitions": gr.Generated + tr, "traces_validated_against_impl": total["ok"],
 		"events_total": len(events), "evaluations": len(events), "distinct_nontrivial": len(lc.Expect), "samples": samples,
-		"rule":           "constants = integer consts of all 8 integer types in decimal/hex/negative/full-range forms, float consts incl. inf/-inf/nan and integer literals, string consts with escapes, bools, a guid; enums over all 8 bases with 0/1/min/max/hex members; [flags] enums over all 8 bases with 12 expression trees each (|, &, <<, >> over literals and earlier members, sign-bit and width-boundary shifts); opcodes as decimal, hex and 4-character strings on struct/message/union; every value computed by Literals.tla on byte sequences; the generated package is compiled and run, constant-ness is checked by using each in a Go const declaration",
+		"rule":              "constants = integer consts of all 8 integer types in decimal/hex/negative/full-range forms, float consts incl. inf/-inf/nan and integer literals, string consts with escapes, bools, a guid; enums over all 8 bases with 0/1/min/max/hex members; [flags] enums over all 8 bases with 12 expression trees each (|, &, <<, >> over literals and earlier members, sign-bit and width-boundary shifts); opcodes as decimal, hex and 4-character strings on struct/message/union; every value computed by Literals.tla on byte sequences; the generated package is compiled and run, constant-ness is checked by using each in a Go const declaration",
 		"constants_by_kind": byKind, "exhaustive": false}
 	return c.Finish("model_checking", cov, []string{"Literals.tla is the reading of integer literals, two's-complement width-typed flag arithmetic (logical shift for unsigned, arithmetic for signed, as Go and C# both do) and opcode byte order; float bit patterns come from a small trusted table in Gen_Literals.tla"}), nil
 }
